@@ -158,3 +158,15 @@ package configuration
 //@   ensures[C11.accepted] result == nil ==> (forall i int :: 0 <= i && i < len(config.Sensors) ==> sensorOK(config, i)) && (forall i int :: 0 <= i && i < len(config.Curves) ==> curveShapeOK(config, i) && curveRefsOK(config, i)) && (forall i int :: 0 <= i && i < len(config.Fans) ==> fanShapeOK(config, i) && fanBackendOK(config, i))
 //@   ensures[C11.runnable] result == nil ==> (forall i int :: 0 <= i && i < len(config.Curves) ==> curveEvaluable(config, i)) && (forall i int :: 0 <= i && i < len(config.Fans) ==> fanLoopOK(config, i))
 //@   modifies nothing
+
+// ---- loading (C16): the serialisation option the daemon works with is the one in the configuration --------------------
+//@ ghost var decodedParallel bool
+//@ extern func github.com/spf13/viper.Unmarshal(rawVal any, opts []viper.DecoderConfigOption) (err error)
+//@   ensures decodedParallel == CurrentConfig.RunFanInitializationInParallel
+//@   modifies anything
+//@   trusted "viper decodes the configuration into the given struct (anything may change); the ghost records the decoded value of runFanInitializationInParallel"
+//@ func LoadConfig
+//@   props C16
+//@   safety none
+//@   ensures[C16.option] CurrentConfig.RunFanInitializationInParallel == decodedParallel
+//@   modifies anything
